@@ -137,22 +137,24 @@ def gen_case(rng, cid, tier="quick"):
         else:
             bad = max(all_revs) + rng.randint(1, 5)
             items.append({"title": rng.choice(art_titles), "revision": bad})
+    # the same page listed several times with different revisions: pinned + pinned, pinned + unpinned, all of them
+    # (every listed (title, revision) must be served with its own text, whatever is stored first)
+    if rng.random() < 0.35:
+        multi = [t for t in art_titles + redirs if len(sw.pages[t]["revs"]) >= 2] or art_titles
+        t = rng.choice(multi)
+        revs = [r["revid"] for r in sw.pages[t]["revs"]]
+        kind = rng.random()
+        if kind < 0.4 and len(revs) >= 2:
+            extra = [{"title": t, "revision": r} for r in rng.sample(revs, 2)]
+        elif kind < 0.8:
+            extra = [{"title": t, "revision": rng.choice(revs)}, {"title": t}]
+        else:
+            extra = [{"title": t, "revision": r} for r in revs] + [{"title": t}]
+            rng.shuffle(extra)
+        for e in extra:
+            items.insert(rng.randint(0, len(items)), e)
     # the quantifier's exclusion: a title reached through a listed redirect is not listed with a pinned revision
-    reached = set()
-    for it in items:
-        start = None
-        if it.get("revision"):
-            pr = sw.by_rev.get(it["revision"])
-            if pr and pr[1].get("redirect"):
-                start = pr[1]["redirect"]
-        elif sw.redirect_of(it["title"]):
-            start = it["title"]
-        if start is not None:
-            hops, _final = sw.resolve(start)
-            if it.get("revision"):
-                reached.add(start)
-            for _a, b in hops:
-                reached.add(b)
+    reached = reached_through_redirects(sw, items)
     items2 = []
     for it in items:
         if it.get("revision") and it["title"] in reached:
@@ -171,8 +173,47 @@ def gen_case(rng, cid, tier="quick"):
             "res_limit": rng.choice(lims) if rng.random() < 0.7 else rng.randint(1, 50),
             "rvlimit": rng.choice(lims) if rng.random() < 0.7 else rng.randint(1, 50),
             "noimages": rng.random() < 0.25, "seed": rng.randint(0, 10 ** 9),
-            "latency": "random" if rng.random() < 0.85 else rng.choice(["zero", "none"])}
+            "latency": rng.choice(["yields"] * 11 + ["bykind"] * 4 + ["random"] * 2 + ["zero", "zero", "none"])}
     return {"id": cid, "wiki": wiki, "metabook": items, "opts": opts}
+
+
+def reached_through_redirects(sw, items):
+    """titles a listed redirect (a title that redirects today, or a pinned revision whose text is a redirect) leads
+    to, every hop included"""
+    reached = set()
+    for it in items:
+        start = None
+        if it.get("revision"):
+            pr = sw.by_rev.get(it["revision"])
+            if pr and pr[1].get("redirect"):
+                start = pr[1]["redirect"]
+        elif sw.redirect_of(it["title"]):
+            start = it["title"]
+        if start is not None:
+            hops, _final = sw.resolve(start)
+            if it.get("revision"):
+                reached.add(start)
+            for _a, b in hops:
+                reached.add(b)
+    return reached
+
+
+def in_domain(case):
+    """is the case inside the property's quantifier?  (used by the shrinker: removing pages / revisions changes which
+    titles redirect where).  Canonical titles; unique page ids and revision ids; every page has a revision; a title
+    reached through a listed redirect is not listed with a pinned revision."""
+    pages = case["wiki"]["pages"]
+    items = list(flat_articles(case["metabook"]))
+    if not items:
+        return False
+    if len({p["title"] for p in pages}) != len(pages) or len({p["id"] for p in pages}) != len(pages):
+        return False
+    revids = [r["revid"] for p in pages for r in p["revs"]]
+    if len(set(revids)) != len(revids) or any(not p["revs"] for p in pages):
+        return False
+    sw = c11_wiki.SynthWiki(case["wiki"], {})
+    reached = reached_through_redirects(sw, items)
+    return not any(it.get("revision") and it["title"] in reached for it in items)
 
 
 def flat_articles(items):
